@@ -315,7 +315,17 @@ func genPem(r *hlib.Rand, n int, emit func(string, ...any)) {
 		case 3, 4:
 			// bundles: several blocks, garbage between / before / after, one bad block in the middle
 			var sb strings.Builder
+			clean := r.Chance(1, 3) // a well-formed bundle, as `nebula-cert ca` / cat would write it
 			for j, m := 0, hlib.Pick(r, 1, 2, 3, 5); j < m; j++ {
+				if clean {
+					s := pemIssued(r, hlib.Pick(r, 1, 2))
+					c, _ := decodeStd(map[bool]int{true: 1, false: 2}[s[0] == 0x0a], s)
+					if c != nil {
+						t, _ := c.MarshalPEM()
+						sb.Write(t)
+					}
+					continue
+				}
 				sb.WriteString(pemGarbage(r))
 				v := hlib.Pick(r, 1, 2)
 				s := pemIssued(r, v)
@@ -332,7 +342,9 @@ func genPem(r *hlib.Rand, n int, emit func(string, ...any)) {
 					sb.WriteString(string(pem.EncodeToMemory(&pem.Block{Type: bn, Bytes: s})))
 				}
 			}
-			sb.WriteString(pemGarbage(r))
+			if !clean {
+				sb.WriteString(pemGarbage(r))
+			}
 			emit("pembundle %s", hexs(sb.String()))
 			if r.Bool() {
 				emit("pemdec %s", hexs(sb.String()))
@@ -356,8 +368,21 @@ func genPem(r *hlib.Rand, n int, emit func(string, ...any)) {
 	parts := []string{"-----BEGIN ", "-----END ", "-----", "\n", "\r\n", "A", "QUJD", "QQ==", "=", ":", " ", "X", "NEBULA CERTIFICATE", "\t", "k: v\n"}
 	for i, k := 0, 60+n/3; i < k; i++ {
 		var sb strings.Builder
-		for j, m := 0, 2+r.Intn(14); j < m; j++ {
-			sb.WriteString(parts[r.Intn(len(parts))])
+		if r.Bool() {
+			// a skeleton with one or two slots replaced by random parts
+			sk := []string{"-----BEGIN ", "X", "-----", "\n", "QUJD", "\n", "-----END ", "X", "-----", "\n", "A"}
+			for k, m := 0, hlib.Pick(r, 0, 1, 1, 2); k < m; k++ {
+				sk[r.Intn(len(sk))] = parts[r.Intn(len(parts))]
+			}
+			if r.Chance(1, 4) {
+				at := r.Intn(len(sk))
+				sk = append(sk[:at], append([]string{parts[r.Intn(len(parts))]}, sk[at:]...)...)
+			}
+			sb.WriteString(strings.Join(sk, ""))
+		} else {
+			for j, m := 0, 2+r.Intn(14); j < m; j++ {
+				sb.WriteString(parts[r.Intn(len(parts))])
+			}
 		}
 		emit("pemraw %s", hexs(sb.String()))
 	}
